@@ -230,7 +230,11 @@ class Check(Property):
             except Exception as exc:  # noqa: BLE001
                 return [f"C08 parse_units({expr(c['u'])!r}, as_delta={c['as_delta']}): raised {type(exc).__name__}: {exc}"]
             if got != want:
-                v.append(f"C08 parse_units({expr(c['u'])!r}, as_delta={c['as_delta']}) = {got}, the definitions read {want}")
+                known = ""
+                undefined = [k for k in got if k.startswith("delta_") and k not in u._units]
+                if undefined:
+                    known = f" [known finding F52] ({undefined[0]} is not a defined unit)"
+                v.append(f"C08 parse_units({expr(c['u'])!r}, as_delta={c['as_delta']}) = {got}, the definitions read {want}{known}")
             return v
         if c["kind"] == "modemix":
             # the default-mode answer after an overridden lookup equals the answer of an untouched registry
